@@ -74,7 +74,21 @@ Definition run_c04 (v : val) : val :=
    2: an error other than InvalidArgument (or Internal for a body path that does not resolve in the schema)
    3: a query parameter addressing a field already bound by the body or a path variable had an effect
       (third component: the results of the same request without those query parameters)
-   4: a panic *)
+   4: a panic
+   5: a query parameter addressing an UNBOUND single string field (outside any oneof, body not "*") did not arrive verbatim
+      in the first message (input field 5 lists those the generator planted: siblings whose name starts with a bound name) *)
+Fixpoint dump_get (fuel : nat) (fields : val) (path : list bytes) : option val :=
+  match fuel, path with
+  | S f, name :: rest =>
+      match filter (fun e => val_eqb (nthv 0 e) (VS name)) (as_L fields) with
+      | e :: _ => match rest with
+                  | [] => Some (nthv 1 e)
+                  | _ => if val_eqb (nthv 0 (nthv 1 e)) (VN 11) then dump_get f (nthv 1 (nthv 1 e)) rest else None
+                  end
+      | [] => None
+      end
+  | _, _ => None
+  end.
 Definition bad_code (sc : schema) (bp : bytes) (r : val) : bool :=
   match as_L r with
   | [VN 0; _] => false
@@ -91,7 +105,15 @@ Definition prop_c04 (input impl : val) : option Z :=
   else if negb (val_eqb clean poisoned) then Some 1
   else if existsb (bad_code sc (as_S (nthv 1 input))) (as_L clean) then Some 2
   else if negb (val_eqb clean (nthv 2 impl)) then Some 3
-  else None.
+  else match as_L clean with
+       | first :: _ =>
+           if Z.eqb (as_Z (nthv 0 first)) 0 &&
+              existsb (fun m => negb (match dump_get 8 (nthv 1 first) (map as_S (as_L (nthv 0 m))) with
+                                      | Some x => val_eqb x (VL [VN 5; nthv 1 m])
+                                      | None => false end)) (as_L (nthv 5 input))
+           then Some 5 else None
+       | [] => None
+       end.
 Definition chk_c04 (c : val) : val :=
   let input := nthv 0 c in
   let impl := nthv 1 c in
